@@ -360,7 +360,7 @@ func (e *Engine) smallEnough(fn *ssa.Function) bool {
 			n++
 		}
 	}
-	return n <= 120
+	return n <= 60
 }
 
 // ---------------------------------------------------------------------------------------------
